@@ -139,6 +139,7 @@ type run struct {
 	depthCap int
 	sentinels []*ssa.Global
 	usedLemmas []string
+	pendingCaps map[string]SVal // captured variables of the contracted closure about to be applied
 }
 
 type execError struct{ msg string }
@@ -399,6 +400,21 @@ func (r *run) heapGet(st *State, name string) string {
 	if !r.usedCtr["heap:"+name] {
 		r.usedCtr["heap:"+name] = true
 		r.emit(fmt.Sprintf("(declare-const %s (Array Int %s))", c, r.heapSort[name]))
+		// a ghost variable x with a declared companion x0: x0 is the value of x at entry of
+		// the activation under verification (nothing ever assigns x0 by name)
+		if strings.HasPrefix(name, "GHOST_") {
+			partner := name + "0"
+			if strings.HasSuffix(name, "0") {
+				partner = strings.TrimSuffix(name, "0")
+			}
+			if _, ok := r.heapSort[partner]; ok && partner != name {
+				if !r.usedCtr["heap:"+partner] {
+					r.usedCtr["heap:"+partner] = true
+					r.emit(fmt.Sprintf("(declare-const init_%s (Array Int %s))", partner, r.heapSort[partner]))
+				}
+				r.emit(fmt.Sprintf("(assert (= (select init_%s 0) (select init_%s 0)))", name, partner))
+			}
+		}
 	}
 	return c
 }
@@ -619,7 +635,9 @@ type loopInfo struct {
 	spec     *LoopSpec
 	idxCell  *ssa.Alloc
 	idxBound ssa.Value
-	measure  string // decreases term at header
+	cntEntry string     // value of the counter at loop entry (when it is an integer literal)
+	cntCell  *ssa.Alloc // counting loop `for c := e0; c < X; c++`: the counter (stored once in the loop, c = c + 1, guarded by c < X)
+	measure  string     // decreases term at header
 	hreach   string
 	extra    map[string]Val
 	iter     *ssa.Range
@@ -759,6 +777,9 @@ func (r *run) analyzeLoops(fr *frame) {
 		if fr.contract != nil {
 			li.spec = fr.contract.Loops[li.ordinal]
 		}
+		if h.Comment != "rangeindex.loop" {
+			li.cntCell = countingCell(li)
+		}
 		if h.Comment == "rangeindex.loop" {
 			// t8 = *ri; t9 = t8+1; *ri = t9; t10 = t9 < n; if t10
 			if len(h.Instrs) >= 5 {
@@ -773,6 +794,75 @@ func (r *run) analyzeLoops(fr *frame) {
 			}
 		}
 	}
+}
+
+// countingCell recognises `for c := e0; c < X; c++` (also with `continue`/`break`/`return` in
+// the body): the header ends in `if c < X`, and the only store to c inside the loop is
+// c = c + 1. Since the increment happens after c < X held, it cannot wrap, so c never drops
+// below its value at loop entry.
+func countingCell(li *loopInfo) *ssa.Alloc {
+	h := li.header
+	if len(h.Instrs) < 2 {
+		return nil
+	}
+	iff, ok := h.Instrs[len(h.Instrs)-1].(*ssa.If)
+	if !ok {
+		return nil
+	}
+	cmp, ok := iff.Cond.(*ssa.BinOp)
+	if !ok || cmp.Op != token.LSS {
+		return nil
+	}
+	ld, ok := cmp.X.(*ssa.UnOp)
+	if !ok || ld.Op != token.MUL {
+		return nil
+	}
+	cell, ok := ld.X.(*ssa.Alloc)
+	if !ok || cell.Heap {
+		return nil
+	}
+	if b, ok := cell.Type().Underlying().(*types.Pointer).Elem().Underlying().(*types.Basic); !ok || b.Info()&types.IsInteger == 0 {
+		return nil
+	}
+	// the true branch must be the loop body (the false branch leaves the loop)
+	if len(h.Succs) != 2 || !li.body[h.Succs[0]] || li.body[h.Succs[1]] {
+		return nil
+	}
+	stores := 0
+	good := false
+	for b := range li.body {
+		for _, in := range b.Instrs {
+			st, ok := in.(*ssa.Store)
+			if !ok || st.Addr != cell {
+				continue
+			}
+			stores++
+			if add, ok := st.Val.(*ssa.BinOp); ok && add.Op == token.ADD {
+				if l, ok := add.X.(*ssa.UnOp); ok && l.Op == token.MUL && l.X == cell {
+					if c, ok := add.Y.(*ssa.Const); ok && c.Value != nil && c.Value.ExactString() == "1" {
+						good = true
+					}
+				}
+			}
+		}
+	}
+	// the address of the counter must not escape to anything but loads and stores
+	for _, ref := range *cell.Referrers() {
+		switch x := ref.(type) {
+		case *ssa.Store:
+			if x.Addr != cell {
+				return nil
+			}
+		case *ssa.UnOp:
+		case *ssa.DebugRef:
+		default:
+			return nil
+		}
+	}
+	if stores == 1 && good {
+		return cell
+	}
+	return nil
 }
 
 func rpo(fn *ssa.Function, isBack func(from, to *ssa.BasicBlock) bool) []*ssa.BasicBlock {
@@ -892,6 +982,14 @@ func (r *run) contractEffects(ct *Contract, eff *effects) {
 	for _, a := range ct.Assigns {
 		if a == "*" {
 			eff.heaps["*"] = true
+			continue
+		}
+		if strings.HasPrefix(a, "ghost:") {
+			g := strings.TrimPrefix(a, "ghost:")
+			if _, ok := r.eng.Prelude.Ghosts[g]; !ok {
+				r.unsupported("assigns %s: no such ghost variable", a)
+			}
+			eff.heaps["GHOST_"+g] = true
 			continue
 		}
 		parts := strings.Split(a, ".")
@@ -1163,6 +1261,12 @@ func (r *run) execBody(fr *frame, st *State, reach string, args []Val) ([]Val, *
 
 func (r *run) loopHeader(fr *frame, li *loopInfo, st *State, reach string) string {
 	li.extra = map[string]Val{}
+	li.cntEntry = ""
+	if li.cntCell != nil {
+		if cv, ok := st.cells[li.cntCell]; ok && cv.Sort == "Int" && isIntLiteral(cv.Term) {
+			li.cntEntry = cv.Term
+		}
+	}
 	// entry obligations
 	env := r.loopEnv(fr, li, st)
 	if li.spec != nil {
@@ -1223,6 +1327,12 @@ func (r *run) loopHeader(fr *frame, li *loopInfo, st *State, reach string) strin
 		// when the bound is 0 the header is reached once with ri = -1
 		r.assume(reach, fmt.Sprintf("(=> (<= %s 0) (= %s (- 1)))", bound, ri))
 	}
+	// counting loop: the counter never drops below its value at loop entry (see countingCell)
+	if li.cntCell != nil && li.cntEntry != "" {
+		if cv, ok := st.cells[li.cntCell]; ok && cv.Sort == "Int" {
+			r.assume(reach, fmt.Sprintf("(>= %s %s)", cv.Term, li.cntEntry))
+		}
+	}
 	env = r.loopEnv(fr, li, st)
 	if li.spec != nil {
 		for _, inv := range li.spec.Invariants {
@@ -1251,7 +1361,13 @@ func (r *run) havocHeaps(st *State, eff *effects) {
 	for _, h := range hs {
 		switch {
 		case h == "*":
+			// "*" is every Go heap location; ghost state is only assigned when named
+			// ("assigns *, ghost:x"), so that a callee's frame says whether it may write
+			// protobuf state (DESIGN 13.6)
 			for name := range r.heapSort {
+				if strings.HasPrefix(name, "GHOST_") {
+					continue
+				}
 				st.heaps[name] = r.fresh("hv_"+name, "(Array Int "+r.heapSort[name]+")")
 			}
 		case h == "MAP":
@@ -1280,7 +1396,15 @@ func (r *run) loopEnv(fr *frame, li *loopInfo, st *State) *specEnv {
 			env.extra[li.spec.IdxName] = SVal{Term: fmt.Sprintf("(+ %s 1)", v.Term), Sort: "Int"}
 		}
 	}
-	if li.spec != nil && li.spec.IdxName != "" && li.idxCell == nil {
+	if li.idxCell == nil && li.cntCell != nil && li.cntEntry == "0" && li.spec != nil && li.spec.IdxName != "" {
+		// `loop n (i)` on a counting loop from 0: i is the counter (= completed iterations)
+		if v, ok := st.cells[li.cntCell]; ok {
+			if _, shadow := env.extra[li.spec.IdxName]; !shadow {
+				env.extra[li.spec.IdxName] = SVal{Term: v.Term, Sort: "Int"}
+			}
+		}
+	}
+	if li.spec != nil && li.spec.IdxName != "" && li.idxCell == nil && li.cntCell == nil {
 		// map-range loop: the name denotes the ghost set of keys visited so far
 		it := li.iter
 		if it == nil {
@@ -1466,4 +1590,19 @@ func (r *run) reveal(env *specEnv, reach string, rc Clause) {
 	v := env.tr(rc.Expr)
 	hidden := strings.Replace(v.Term, "("+rc.Expr.Val+" ", "("+rc.Expr.Val+"!def ", 1)
 	r.assume(reach, fmt.Sprintf("(= %s %s)", v.Term, hidden))
+}
+
+func isIntLiteral(t string) bool {
+	if t == "" {
+		return false
+	}
+	if strings.HasPrefix(t, "(- ") && strings.HasSuffix(t, ")") {
+		t = t[3 : len(t)-1]
+	}
+	for _, c := range t {
+		if c < '0' || c > '9' {
+			return false
+		}
+	}
+	return true
 }
